@@ -582,14 +582,16 @@ fn gen_env(rng: &mut Rng) -> Vec<(String, String)> {
     if rng.chance(0.3) {
         let names = [
             "COLUMNS", "LINES", "TERM", "NO_COLOR", "CLICOLOR_FORCE", "LANG", "LC_ALL", "TYPSTYLE_COLUMN", "TYPSTYLE_TAB_WIDTH",
-            "TYPSTYLE_COLUMNS", "TYPSTYLE_CHECK", "TYPSTYLE_INPLACE", "TYPSTYLE_LOG", "RUST_LOG", "TAB_WIDTH", "COLUMN", "HOME", "TMPDIR", "CI",
+            "TYPSTYLE_COLUMNS", "TYPSTYLE_CHECK", "TYPSTYLE_INPLACE", "TYPSTYLE_LOG", "RUST_LOG", "TAB_WIDTH", "COLUMN", "CI", "EDITOR", "PAGER",
         ];
         for _ in 0..rng.range(1, 4) {
             let n = *rng.pick(&names);
             let val = match n {
                 "TERM" => "dumb".to_string(),
                 "LANG" | "LC_ALL" => rng.pick(&["C", "tr_TR.UTF-8", "de_DE.ISO-8859-1"]).to_string(),
-                "HOME" | "TMPDIR" => "/nonexistent".to_string(),
+                // (HOME and TMPDIR are never pointed at something unusable: a tool that keeps state or
+                // temporary files there may legitimately fail in such an environment)
+                "EDITOR" | "PAGER" => "cat".to_string(),
                 "RUST_LOG" | "TYPSTYLE_LOG" => "trace".to_string(),
                 "NO_COLOR" | "CLICOLOR_FORCE" | "CI" | "TYPSTYLE_CHECK" | "TYPSTYLE_INPLACE" => rng.pick(&["1", "true", "0"]).to_string(),
                 _ => rng.pick(&["0", "1", "7", "13", "40", "100", "200"]).to_string(),
